@@ -57,8 +57,7 @@ void Exec::op_talloc(const Op& op) {
     if (!p) { count(C_NULLS); if (!allow_null && j.n <= MUST_SUCCEED_MAX && !j.use_arena) fail_now("null", "op#%ld helper thread: alloc(%zu) returned NULL", opi, j.n); continue; }
     if (m.slots[s].live) { mi_free(p); continue; }
     bool z = (j.f == "zalloc");
-    model_add(s, p, j.n, j.a > 16 ? j.a : 1, 0, -1, z, "talloc"); m.slots[s].foreign = true;
-    if (j.use_arena) m.slots[s].home = -2 - j.arena;   // floating, but bound to arena `ar`
+    model_add(s, p, j.n, j.a > 16 ? j.a : 1, 0, j.use_arena ? -2 - j.arena : -1, z, "talloc"); m.slots[s].foreign = true;
     if (z) check_zeroed(p, 0, j.n, "talloc-zalloc");
     model_fill(s);
   }
@@ -77,6 +76,7 @@ void Exec::op_heap(const Op& op) {
     if (kind == "new") { hp = mi_heap_new(); H.kind = 1; H.destroyable = true; }
     else if (kind == "ex") { int tag = (int)op.num("tag", 0) & 255; if (forced_abandon && tag != 0) { count(C_EXCLUDED); tag = 0; } bool d = op.num("d", 0) != 0; int ai = op.has("ar") ? (int)op.num("ar") : -1;
       mi_arena_id_t aid = 0; if (ai >= 0) { if (ai >= NARENAS || !m.arenas[ai].valid) return; aid = m.arenas[ai].id; }
+      if (tag != 0 && ai >= 0) { count(C_EXCLUDED); tag = 0; }   // guard: heap tags are not combined with arena-bound heaps (tag routing of reclaimed pages reports errors by design)
       hp = mi_heap_new_ex(tag, d, aid); H.kind = 3; H.tag = tag; H.arena = ai; H.destroyable = d; }
     else if (kind == "arena") { int ai = (int)op.num("ar"); if (ai < 0 || ai >= NARENAS || !m.arenas[ai].valid) return; hp = mi_heap_new_in_arena(m.arenas[ai].id); H.kind = 2; H.arena = ai; }
     else return;
@@ -104,6 +104,8 @@ void Exec::op_heap(const Op& op) {
   } else {
     bool compat = (H.tag == 0 && H.arena < 0);
     for (int s = 0; s < NSLOTS; s++) if (m.slots[s].live && m.slots[s].home == h) { m.slots[s].home = compat ? 1 : (H.arena >= 0 ? -2 - H.arena : -1); if (!compat && !known_f5_off) m.slots[s].stranded = true; }
+    // blocks of exited threads in the same arena may have been adopted by this heap: they are stranded as well (F5), which the model cannot tell apart
+    if (!compat && !known_f5_off && H.arena >= 0 && m.arenas[H.arena].valid) { ArenaInfo& A = m.arenas[H.arena]; for (auto& kv : m.live) if (kv.first >= (uintptr_t)A.start && kv.first < (uintptr_t)A.start + A.size) m.slots[kv.second].stranded = true; }
     mi_heap_delete(H.h);   // mi_heap_destroy on a heap created without allow_destroy violates mi_assert(heap->no_reclaim): never generated
     if (owned >= 2 && others >= 1) flag(F_HEAP_DEL);
   }
